@@ -225,6 +225,44 @@ pub fn run(ctx: &Ctx, rep: &mut Report) {
                 });
             }
         });
+        // sentence splitting with a window larger than the default and the shared lexicon as non-break checker, from
+        // several threads at once: the first terminator lies beyond 4,096 characters
+        if !miri && idx % 3 == 2 {
+            use sudachi::sentence_splitter::{SentenceSplitter, SplitSentences};
+            let long_text = format!("{}。{}！あ。い", "あ".repeat(4300 + rng.below(500)), rng.pick(&texts[..]));
+            let split = |d: &JapaneseDictionary| -> Vec<(usize, usize)> {
+                SentenceSplitter::with_limit(16384).with_checker(d.lexicon()).split(&long_text).map(|(r, _)| (r.start, r.end)).collect()
+            };
+            let base_split = split(&twin);
+            let bad = Mutex::new(Vec::<String>::new());
+            std::thread::scope(|s| {
+                for ti in 0..n_threads.min(16) {
+                    let bad = &bad;
+                    let base_split = &base_split;
+                    let split = &split;
+                    s.spawn(move || {
+                        for k in 0..20 {
+                            let got = std::panic::catch_unwind(std::panic::AssertUnwindSafe(|| split(dict)));
+                            match got {
+                                Ok(g) if g == *base_split => {}
+                                Ok(g) => {
+                                    bad.lock().unwrap().push(format!("thread {} round {}: sentences {:?}, single-threaded {:?}", ti, k, g.iter().take(4).collect::<Vec<_>>(), base_split.iter().take(4).collect::<Vec<_>>()));
+                                    return;
+                                }
+                                Err(_) => {
+                                    bad.lock().unwrap().push(format!("thread {} round {}: sentence splitting panicked", ti, k));
+                                    return;
+                                }
+                            }
+                        }
+                    });
+                }
+            });
+            rep.count("concurrent_sentence_splittings", (n_threads.min(16) * 20) as u64);
+            for m in bad.lock().unwrap().iter().take(2) {
+                rep.violation("result_differs_from_single_threaded", "SentenceSplitter", m, "", json!({"repetition": idx, "threads": n_threads, "text_chars": long_text.chars().count()}));
+            }
+        }
         let after = digest(&world, &world.dict);
         let scen = |extra: &str| json!({"repetition": idx, "threads": n_threads, "detail": extra, "world": world.describe(false)});
         rep.count("repetitions", 1);
